@@ -13,7 +13,7 @@ import (
 	"verifh/vk"
 )
 
-var targets = []hwd.Target{hwd.TF0, hwd.TG, hwd.TM, hwd.TXA, hwd.TG2own, hwd.TG2hw, hwd.TVv, hwd.TVp, hwd.TLm, hwd.TLm2}
+var targets = []hwd.Target{hwd.TF0, hwd.TG, hwd.TM, hwd.TXA, hwd.TXB, hwd.TG2own, hwd.TG2hw, hwd.TVv, hwd.TVp, hwd.TLm, hwd.TLm2}
 
 const ownPkg = "verifh/hworld"
 
@@ -39,6 +39,8 @@ func alphabet() []hwd.Op {
 	add(hwd.TVp, false, hwd.KReturn)
 	add(hwd.TXA, false, hwd.KApplyA, hwd.KReturn, hwd.KWhenReturn, hwd.KCancel)
 	add(hwd.TXA, true, hwd.KReturn)
+	// a second method of the same interface variable, with the same signature
+	add(hwd.TXB, false, hwd.KReturn, hwd.KWhenReturn)
 	add(hwd.TG2own, false, hwd.KApplyA, hwd.KReturn, hwd.KCancel)
 	// a function with an origin placeholder: the callback that calls the original is itself superseded and supersedes
 	add(hwd.TG, false, hwd.KApplyO, hwd.KApplyA, hwd.KReturn)
